@@ -113,7 +113,8 @@ func (x *runner) runKeyset(sc scenario) {
 	var (
 		r   io.Reader
 		src *source
-		got int
+		got  int
+		post bool
 	)
 	for _, o := range sc.Ops {
 		switch o.Op {
@@ -147,7 +148,8 @@ func (x *runner) runKeyset(sc scenario) {
 				var n int
 				var err error
 				pan, _ := vt.Try(func() { n, err = r.Read(p) })
-				e := vt.Ev{"ev": "Read", "n": sz, "ret": n, "err": errClass(err), "panic": pan, "calls": src.take()}
+				e := vt.Ev{"ev": "Read", "n": sz, "ret": n, "err": errClass(err), "panic": pan, "calls": src.take(), "post": post}
+				post = post || err != nil
 				if pan || n < 0 || n > sz {
 					x.tw.Emit(e)
 					return
